@@ -74,6 +74,7 @@ const (
 	aCBlock     = 12 // [c, ndeliver, (hrel, who, kind)*]
 	aRelaySlash = 13 // [c, n]
 	aForge      = 14 // [c, mode, val, who, kind]
+	aRestart    = 15 // [c] the consumer chain is restarted from its exported genesis (between two blocks)
 )
 
 const nKeys = 64
@@ -448,15 +449,26 @@ func (d *drv) consumerBlock(in *inst, a []int64) {
 	ce.NextBlock(5 * time.Second)
 }
 
-// recvSlash hands a slash packet to the provider; returns (ok, ack result, infraction_height attribute or -1)
-func (d *drv) recvSlash(in *inst, data ccvtypes.SlashPacketData, raw []byte, seq uint64) (bool, ccvtypes.PacketAckResult, int64, error) {
+// recvSlash hands a slash packet to the provider through the REAL IBC callback (provider AppModule.OnRecvPacket, which
+// decodes the packet data, calls the keeper's OnRecvSlashPacket and builds the acknowledgement).  What is observed is the
+// ACKNOWLEDGEMENT: ok = a result acknowledgement (with its result byte), !ok = an error acknowledgement (or a panic, which
+// IBC core turns into a failed transaction).  As in IBC core the callback runs on a cached context that is written only
+// for a successful acknowledgement.  Also returns the infraction_height event attribute (-1 if not emitted).
+func (d *drv) recvSlash(in *inst, raw []byte, seq uint64) (bool, channeltypes.Acknowledgement, int64) {
 	packet := channeltypes.NewPacket(raw, seq, ccvtypes.ConsumerPortID, "channel-0", ccvtypes.ProviderPortID, in.chanID, clienttypes.Height{}, 0)
-	var ack ccvtypes.PacketAckResult
+	var ack channeltypes.Acknowledgement
 	evh := int64(-1)
 	res := common.Tx(d.env.Ctx, func(ctx sdk.Context) error {
 		ctx = ctx.WithEventManager(sdk.NewEventManager())
-		r, err := d.env.K.OnRecvSlashPacket(ctx, packet, data)
-		ack = r
+		a := d.env.Module.OnRecvPacket(ctx, ccvtypes.Version, packet, nil)
+		ca, isAck := a.(channeltypes.Acknowledgement)
+		if !isAck {
+			return fmt.Errorf("unexpected acknowledgement type %T", a)
+		}
+		ack = ca
+		if !a.Success() {
+			return fmt.Errorf("error acknowledgement")
+		}
 		for _, ev := range ctx.EventManager().Events() {
 			if ev.Type != providertypes.EventTypeExecuteConsumerChainSlash {
 				continue
@@ -467,17 +479,17 @@ func (d *drv) recvSlash(in *inst, data ccvtypes.SlashPacketData, raw []byte, seq
 				}
 			}
 		}
-		return err
+		return nil
 	})
-	var err error
 	if !res.OK() {
 		evh = -1
-		err = res.Err
-		if err == nil {
-			err = fmt.Errorf("panic: %v", res.Panic)
+		if res.Panic != nil || ack.Response == nil {
+			ack = channeltypes.NewErrorAcknowledgement(fmt.Errorf("panic: %v", res.Panic))
 		}
 	}
-	return res.OK(), ack, evh, err
+	// a result acknowledgement must carry exactly one of the known result bytes
+	ok := res.OK() && ack.Success() && len(ack.GetResult()) == 1
+	return ok, ack, evh
 }
 
 func (d *drv) relaySlash(in *inst, n int64) {
@@ -489,15 +501,9 @@ func (d *drv) relaySlash(in *inst, n int64) {
 			panic(err)
 		}
 		data := *cp.GetSlashPacketData()
-		ok, ackRes, evh, rerr := d.recvSlash(in, data, sl.data, sl.seq)
+		ok, ack, evh := d.recvSlash(in, sl.data, sl.seq)
 		in.emit(common.L(int64(9), int64(data.ValsetUpdateId), common.B(evh >= 0)), common.L(common.B(!ok), evh))
-		// acknowledgement back to the consumer
-		var ack channeltypes.Acknowledgement
-		if ok {
-			ack = channeltypes.NewResultAcknowledgement(ackRes)
-		} else {
-			ack = channeltypes.NewErrorAcknowledgement(rerr)
-		}
+		// the acknowledgement the provider wrote goes back to the consumer
 		packet := channeltypes.NewPacket(sl.data, sl.seq, ccvtypes.ConsumerPortID, "channel-0", ccvtypes.ProviderPortID, in.chanID, clienttypes.Height{}, 0)
 		common.Tx(in.cenv.Ctx, func(ctx sdk.Context) error { return in.cenv.K.OnAcknowledgementPacket(ctx, packet, ack) })
 	}
@@ -525,8 +531,25 @@ func (d *drv) forge(in *inst, a []int64) {
 		infraction = stakingtypes.Infraction_INFRACTION_DOWNTIME
 	}
 	data := ccvtypes.SlashPacketData{Validator: abci.Validator{Address: addr, Power: power}, ValsetUpdateId: uint64(id), Infraction: infraction}
-	ok, _, evh, _ := d.recvSlash(in, data, []byte("forged"), 999)
+	raw := ccvtypes.NewConsumerPacketData(ccvtypes.SlashPacket, &ccvtypes.ConsumerPacketData_SlashPacketData{SlashPacketData: &data}).GetBytes()
+	ok, _, evh := d.recvSlash(in, raw, 999)
 	in.emit(common.L(int64(9), id, common.B(evh >= 0)), common.L(common.B(!ok), evh))
+}
+
+// restart: the consumer chain stops between two blocks, its CCV genesis is exported (ExportGenesis) and a FRESH consumer
+// keeper is initialised from it (InitGenesis, NewChain = false) at the same height and time over the same IBC world.
+// The model treats a restart as the identity on the consumer state, so nothing is emitted: every later observation
+// (height -> id map, sets, slash ids) must be what it would have been without the restart.  The consensus engine is
+// handed the full exported set again.
+func (d *drv) restart(in *inst) {
+	old := in.cenv
+	gs := old.K.ExportGenesis(old.Ctx)
+	ne := common.NewConsumerEnv(d.t, in.cw, "consumer-"+in.cid)
+	ne.Ctx = ne.Ctx.WithBlockHeader(old.Ctx.BlockHeader())
+	upd := ne.K.InitGenesis(ne.Ctx, gs)
+	in.cenv = ne
+	in.engine = map[int64]int64{}
+	d.fold(in, upd)
 }
 
 func (d *drv) shape(cfg consCfg) *providertypes.PowerShapingParameters {
@@ -642,6 +665,10 @@ func (d *drv) run() (common.T, common.T) {
 		case aForge:
 			if in := d.inst(a[1]); in != nil {
 				d.forge(in, a)
+			}
+		case aRestart:
+			if in := d.inst(a[1]); in != nil {
+				d.restart(in)
 			}
 		}
 	}
